@@ -6,11 +6,11 @@ COEFFS = [2.0, -2.0, 1.5, -1.5, 1.0, 1.0, -1.0, 0.5, -0.5, 0.25, -0.25]
 BODY = {
     'C05': dict(from_opchains=8, to_mpo=5, simplify=1, rename_node=0.5, rename_edge=0.5, flip=0.3, add=1, random_layered=1.5, merge_edges=0.7,
                 as_matrix=0.7, chain_as_matrix=0.7, from_optrees=0.4, from_automaton=0.4, deepcopy=0.3),
-    'C16': dict(random_layered=3, from_opchains=1.5, from_optrees=1, from_automaton=1, simplify=4, merge_edges=4, rename_node=3, rename_edge=3,
+    'C16': dict(one_node_graph=0.6, random_layered=3, from_opchains=1.5, from_optrees=1, from_automaton=1, simplify=4, merge_edges=4, rename_node=3, rename_edge=3,
                 add=4, flip=2.5, deepcopy=1, to_mpo=0.8, as_matrix=0.8),
     'C17': dict(from_optrees=6, from_automaton=6, as_matrix=4, tree_as_matrix=2.5, chain_as_matrix=2, from_opchains=1, simplify=1, add=1, flip=0.7,
                 rename_node=0.4, random_layered=1, to_mpo=1),
-    'C19': dict(from_opchains=3, from_optrees=2, from_automaton=2, random_layered=2, add=4, to_mpo=3, as_matrix=2, deepcopy=1.5, simplify=1.5,
+    'C19': dict(one_node_graph=0.2, from_opchains=3, from_optrees=2, from_automaton=2, random_layered=2, add=4, to_mpo=3, as_matrix=2, deepcopy=1.5, simplify=1.5,
                 flip=1, rename_node=1, rename_edge=1, merge_edges=1, chain_as_matrix=0.7, tree_as_matrix=0.7),
     'C20': dict(from_opchains=7, to_mpo=3, simplify=4, random_layered=2.5, add=2, merge_edges=1, from_optrees=1, from_automaton=0.7, flip=0.5),
 }
@@ -293,7 +293,9 @@ def gen_session(prop: str, tier: str, seed: int) -> dict:
             idmap[o] = pool_ids[o - 1]
     else:
         idmap = {o: o for o in range(0, K + 1)}
-    cfg = {'world': 'gr', 'profile': profile, 'tier': tier, 'L': L, 'K': K, 'charges': ch, 'd': d, 'qd': qd, 'idmap': {str(k): v for k, v in idmap.items()}, 'enabled': ['CBCALLS', 'CBBUF', 'GLOBALS'], 'faultfree': True,
+    if rng.chance(0.3):
+        idmap[0] = rng.pick([50, -7, 13, 1000])      # the identity need not be operator 0 (it is an argument of the constructors)
+    cfg = {'world': 'gr', 'profile': profile, 'tier': tier, 'L': L, 'K': K, 'charges': ch, 'idI': idmap[0], 'd': d, 'qd': qd, 'idmap': {str(k): v for k, v in idmap.items()}, 'enabled': ['CBCALLS', 'CBBUF', 'GLOBALS'], 'faultfree': True,
            'opmap_seed': rng.sub()}
     nops = rng.randrange(3, 13) if tier == 'quick' else rng.randrange(4, 25)
     if rng.chance(0.05):
@@ -352,6 +354,11 @@ def gen_session(prop: str, tier: str, seed: int) -> dict:
 
 def gen_op(rng: Rng, cfg, kind: str) -> dict:
     s = rng.sub
+    if kind == 'one_node_graph':
+        # the smallest legal graph: a single node that is both terminals (length 0, denotes the scalar 1)
+        return {'op': 'one_node_graph', 'nid': rng.pick([0, 3, -2, 17]), 'q': rng.pick([0, 0, 1, -1]),
+                'steps': [rng.pick(['rename', 'rename', 'flip', 'simplify', 'as_matrix', 'rename', 'to_mpo']) for _ in range(rng.randrange(1, 5))],
+                'new': [rng.pick([5, 7, -1, 100, 1]) for _ in range(4)]}
     if kind == 'from_opchains':
         op = {'op': 'from_opchains', 'chains': gen_chain_list(rng, cfg)}
         if rng.chance(0.3):
